@@ -73,7 +73,7 @@ package agent
 //@            (a.NumHosts - len(lastActive) > 0 ==> peercalls == old(peercalls) + 1 && lastPeerReq.Num == a.NumHosts - len(lastActive) && lastPeerReq.Kind == ownKind(a))
 //@            && (a.NumHosts - len(lastActive) <= 0 ==> peercalls == old(peercalls) && cnlen == old(cnlen))
 //@ ensures [connects-what-the-pool-returned] forall j int :: old(cnlen) <= j && j < cnlen ==> cnarg[j] == lastPeers[j - old(cnlen)].URI
-//@ modifies poolcalls, lastPoolCall, lastUpdateOK, lastUpdate, lastInvalid, lastActive, peercalls, lastPeerReq, lastPeers, rmlen, rmarg, dclen, dcarg, cnlen, cnarg, ethnode.lastLocalPeers
+//@ modifies poolcalls, lastPoolCall, lastUpdateOK, lastUpdate, lastInvalid, lastActive, peercalls, lastPeerReq, lastPeers, rmlen, rmarg, dclen, dcarg, cnlen, cnarg, lastLocalPeers
 //@ loop 0 invariant [lookup-sound] lookup != nil && update.ActivePeers == lastActive && (forall id string :: has(lookup, id) ==>
 //@        (exists q int :: off(lastActive) <= q && q < off(lastActive) + rangeidx && parseOK(elems(lastActive)[q]) && nidOf(elems(lastActive)[q]) == id && hostOf(elems(lastActive)[q]) == lookup[id]))
 //@ loop 1 invariant [list] update.ActivePeers == lastActive && samePrefix(update.InvalidPeers, lastInvalid) && peers == ethnode.lastLocalPeers
